@@ -87,7 +87,7 @@ struct inputs nondet_in(void);
 #endif
 DECL_SNAPSHOT(ssl_t, g_ssl);
 
-/* fields of g_ssl left at zero: everything else; the function reads only the
+/* fields of g_ssl not assigned here (havocked by DFCC in the cbmc run, zero in the native replay): everything else; the function reads only the
    five fields set below (flags is read by a trace macro that expands to nothing) */
 HARNESS_BEGIN
     HARNESS_INPUTS(struct inputs, in);
